@@ -201,6 +201,67 @@ def upgrades_list(fl: int, allow: bool, ti: int, ws_avail: bool, req_ws: bool) -
     return verdict(untraced(_upgrades, fl, allow, ti, ws_avail, req_ws))
 
 
+def _overlap(fl, ws_a, ws_b, slow_b):
+    """Two open requests overlap on one server: the connect handler of the first is still running (it blocks / awaits for a
+    second, e.g. an authentication look-up) when the second arrives. Each response carries an OPEN packet whose sid is the
+    id ITS connect handler was given, with the upgrades list of its own transport, and both sessions are addressable."""
+    sut = mk(fl, async_handlers=False)
+    try:
+        order = []
+        if fl == 0:
+            def connect(sid, environ):
+                order.append(sid)
+                if len(order) == 1 or slow_b:
+                    sut.srv.sleep(1)
+        else:
+            async def connect(sid, environ):
+                order.append(sid)
+                if len(order) == 1 or slow_b:
+                    await sut.shim.sleep(1)
+        sut.srv.on('connect', connect)
+        reqs = []
+        for ws in (ws_a, ws_b):
+            reqs.append((ws, sut.open('websocket' if ws else 'polling')))
+            sut.settle()
+        sut.run(until=sut.k.now + 3)
+        st = dict(flavour=sut.flavour, transports=repr(('websocket' if ws_a else 'polling', 'websocket' if ws_b else 'polling')), overlap=True)
+        if len(order) != 2 or order[0] == order[1]:
+            return fail(PROP, 'ONE-SESSION', 'two overlapping opens: connect handler ran for %r' % (order,), **st)
+        for i, (ws, r) in enumerate(reqs):
+            if ws:
+                if not r.peer.frames:
+                    return fail(PROP, 'OPEN-FIRST', 'overlapping open #%d: no frame on the websocket' % (i + 1), **st)
+                pk = decode_packet(r.peer.frames[0])
+            else:
+                if not r.done or sut.status(r) != 200:
+                    return fail(PROP, 'OPEN-STATUS', 'overlapping open #%d answered %r' % (i + 1, sut.status(r) if r.done else None), **st)
+                pk = _first_packets(sut, r, False)[0]
+            if pk[0] != 0:
+                return fail(PROP, 'OPEN-FIRST', 'overlapping open #%d: first packet %r' % (i + 1, pk), **st)
+            info = json.loads(pk[1])
+            if info.get('sid') != order[i]:
+                return fail(PROP, 'OPEN-SID', 'overlapping open #%d: OPEN carries sid %r, its connect handler was given %r' % (
+                    i + 1, info.get('sid'), order[i]), **st)
+            if info.get('upgrades') != ([] if ws else ['websocket']):
+                return fail(PROP, 'UPGRADES-LIST', 'overlapping open #%d (%s): upgrades %r' % (i + 1, 'websocket' if ws else 'polling', info.get('upgrades')), **st)
+            a = sut.api('transport', order[i])
+            sut.settle()
+            if a.exc is not None or a.ret != ('websocket' if ws else 'polling'):
+                return fail(PROP, 'SID-ADDRESSABLE', 'overlapping open #%d: transport(sid) -> %r / %r' % (i + 1, a.ret, a.exc), **st)
+        return ''
+    finally:
+        sut.close()
+
+
+@cond(quick=dict(timeout=60), thorough=dict(timeout=120))
+def overlapping_opens(fl: int, ws_a: bool, ws_b: bool, slow_b: bool) -> str:
+    """
+    pre: 0 <= fl <= 1
+    post: _ == ''
+    """
+    return verdict(untraced(_overlap, fl, ws_a, ws_b, slow_b))
+
+
 COOKIES = (None, 'io', 'sess', {'name': 'c', 'path': '/x'}, {'name': 'c', 'Secure': True}, {'name': 'c', 'HttpOnly': False, 'path': '/'},
            {'name': 'c', 'SameSite': lambda: 'Strict'}, {'path': '/only'}, {'name': 'c', 'Secure': True, 'HttpOnly': True, 'Max-Age': '3600'})
 
